@@ -1,0 +1,99 @@
+//go:build verif
+
+// Recording replacement for the netlink interface configuration, used by the
+// verification harness in /verif only (build tag "verif").
+package libif
+
+import (
+	"fmt"
+	"net"
+	"sync"
+	"time"
+)
+
+type Ifconfig struct {
+	Interface     *net.Interface
+	Router        net.IP
+	IP            net.IP
+	MTU           int
+	DNS           []net.IP
+	DomainName    string
+	Netmask       net.IPMask
+	LeaseDuration time.Duration
+}
+
+// Call is one recorded call.
+type Call struct {
+	T    time.Time
+	Op   string // down, up, unconfigure, addr, setiface
+	Conf *Ifconfig
+	Err  error
+}
+
+type Fake struct {
+	mu    sync.Mutex
+	Addr  net.IP // returned by InterfaceAddr (nil = error)
+	Calls []Call
+	Fail  func(op string, n int, c *Ifconfig) error // n = index of this call
+}
+
+var (
+	fmu   sync.Mutex
+	fakes = map[string]*Fake{}
+)
+
+func VerifFake(name string) *Fake {
+	fmu.Lock()
+	defer fmu.Unlock()
+	f := fakes[name]
+	if f == nil {
+		f = &Fake{}
+		fakes[name] = f
+	}
+	return f
+}
+
+func VerifDropFake(name string) {
+	fmu.Lock()
+	defer fmu.Unlock()
+	delete(fakes, name)
+}
+
+func (f *Fake) Log() []Call {
+	f.mu.Lock()
+	defer f.mu.Unlock()
+	return append([]Call{}, f.Calls...)
+}
+
+func record(iface *net.Interface, op string, c *Ifconfig) error {
+	f := VerifFake(iface.Name)
+	f.mu.Lock()
+	defer f.mu.Unlock()
+	var err error
+	if f.Fail != nil {
+		err = f.Fail(op, len(f.Calls), c)
+	}
+	var cc *Ifconfig
+	if c != nil {
+		x := *c
+		x.DNS = append([]net.IP{}, c.DNS...)
+		cc = &x
+	}
+	f.Calls = append(f.Calls, Call{T: time.Now(), Op: op, Conf: cc, Err: err})
+	return err
+}
+
+func Down(iface *net.Interface) error        { return record(iface, "down", nil) }
+func Up(iface *net.Interface) error          { return record(iface, "up", nil) }
+func Unconfigure(iface *net.Interface) error { return record(iface, "unconfigure", nil) }
+func SetIface(c Ifconfig) error              { return record(c.Interface, "setiface", &c) }
+
+func InterfaceAddr(iface *net.Interface) (net.IP, error) {
+	f := VerifFake(iface.Name)
+	f.mu.Lock()
+	defer f.mu.Unlock()
+	if f.Addr == nil {
+		return nil, fmt.Errorf("no ipv4 addr found on interface")
+	}
+	return f.Addr, nil
+}
